@@ -15,8 +15,10 @@ PACKET = Stage(
 FRAME = Stage(
     family="frame",
     reset_ev="Start",
-    mc={"quick": [("MC_Frame.tla", "MC_Frame_quick.cfg", "pass"), ("MC_Frame.tla", "MC_Frame_neg.cfg", "fail")],
-        "thorough": [("MC_Frame.tla", "MC_Frame.cfg", "pass"), ("MC_Frame.tla", "MC_Frame_neg.cfg", "fail")]},
+    mc={"quick": [("MC_Frame.tla", "MC_Frame_quick.cfg", "pass"), ("MC_Frame.tla", "MC_Frame_streams.cfg", "pass"),
+                  ("MC_Frame.tla", "MC_Frame_neg.cfg", "fail"), ("MC_Frame.tla", "MC_Frame_memo_neg.cfg", "fail")],
+        "thorough": [("MC_Frame.tla", "MC_Frame.cfg", "pass"), ("MC_Frame.tla", "MC_Frame_streams.cfg", "pass"),
+                     ("MC_Frame.tla", "MC_Frame_neg.cfg", "fail"), ("MC_Frame.tla", "MC_Frame_memo_neg.cfg", "fail")]},
     parts={"quick": [("", 4)], "thorough": [("", 8)]},
     trace=("Trace_Frame.tla", "Trace_Frame.cfg"),
     nontrivial=lambda e: e.get("ev") in ("Decode", "DecodeB"),
